@@ -177,6 +177,9 @@ def equilibrium(
         return y - pfunc(y, *params)
 
     method = _get_equilibrium_default_method(method)
+    if isinstance(method, str):
+        # method names are case-insensitive (as in get_method)
+        method = method.lower()
     fwd_options["method"] = method
     fwd_fcn = pfunc if method in _EQUIL_METHODS else new_fcn
     alg_type = "equilibrium" if method in _EQUIL_METHODS else "rootfinder"
@@ -248,8 +251,11 @@ def minimize(
 
     pfunc = get_pure_function(fcn)
 
-    fwd_options["method"] = _get_minimizer_default_method(method)
-    method = fwd_options["method"]
+    method = _get_minimizer_default_method(method)
+    if isinstance(method, str):
+        # method names are case-insensitive (as in get_method)
+        method = method.lower()
+    fwd_options["method"] = method
 
     # minimization can use rootfinder algorithm, so check if it is actually
     # using the optimization algorithm, not the rootfinder algorithm
